@@ -115,10 +115,11 @@ def argv_of(case):
     for i in order_of(case):
         f = case["fields"][i]
         toks = tokens_of(f)
+        opt = f"--nof{i}" if f.get("neg") else f"--f{i}"
         if f.get("spell") == "eq" and len(toks) == 1:
-            argv.append(f"--f{i}={toks[0]}")
+            argv.append(f"{opt}={toks[0]}")
         else:
-            argv += [f"--f{i}"] + toks
+            argv += [opt] + toks
     return argv + case.get("extra_argv", [])
 
 
@@ -198,7 +199,7 @@ def field_coq(f, obsv, in_order):
     toks = tokens_of(f) if in_order else None
     intended = f.get("assign")
     return ("(mkf " + L.ty_coq(f["ty"]) + " " + (copt(L.value_coq(f["default"])) if f.get("default") is not None else "None") + " "
-            + (copt(cstrlist(toks)) if toks is not None else "None") + " "
+            + (copt(cstrlist(toks)) if toks is not None else "None") + " " + cbool(bool(f.get("neg")) and in_order) + " "
             + (copt(L.value_coq(intended)) if intended is not None else "None") + " "
             + (copt(L.value_coq(obsv)) if obsv is not None else "None") + ")")
 
@@ -213,8 +214,8 @@ def to_coq(case, obs, expect_reject=False):
             fs.append(field_coq(case["fields"][i], ov, i in order))
         oc = "(Ok tt)" if obs["outcome"][0] == "ok" else outcome(obs["outcome"])
     except L.OutOfScope:
-        return "mkcase [] (Ok tt) false"   # non-finite float etc.: vacuous case
-    return f"mkcase {clist(fs)} {oc} {cbool(expect_reject)}"
+        return "mkcase [] (Ok tt) false false"   # non-finite float etc.: vacuous case
+    return f"mkcase {clist(fs)} {oc} {cbool(expect_reject)} {cbool(bool(case.get('unknown_opt')))}"
 
 
 def shrink(case):
